@@ -27,7 +27,7 @@ PARTS += ["hierarchy"]    # mir_eval/hierarchy.py T-/L-measure kernels -> MirGen
 PARTS += ["trmatch"]      # transcription.match_note_onsets / _offsets / match_notes + the three P/R/F functions -> MirGen/TrMatch.lean (C05, C04)
 PARTS += ["melody"]       # mir_eval/melody.py frame metrics, validation, freq_to_voicing, time base -> MirGen/Melody.lean (C04)
 PARTS += ["validators"]   # mir_eval input validators -> MirGen/Validators.lean (C14)
-PARTS += ["beat"]         # mir_eval/beat.py trim_beats, _get_reference_beat_variations -> MirGen/Beat.lean (C04)
+PARTS += ["beat"]         # mir_eval/beat.py trim_beats, _get_reference_beat_variations, p_score -> MirGen/Beat.lean (C04)
 
 
 def write_if_changed(path, text):
